@@ -12,9 +12,9 @@ import (
 
 func init() {
 	register(&Rule{
-		ID: "C29",
+		ID:      "C29",
 		Explain: "Decides the locking discipline that makes agent log delivery complete and ordered for any number of concurrent writers: GatedWriter's buffer and gate flag are written only with its lock held exclusively and read only with it held; opening the gate and draining the buffer to the underlying writer happen inside one exclusive critical section, so no later line can overtake a buffered one and no buffered append can race with another; the pass-through write happens with the lock held behind flush==true. The log ring (logs, index, handlers) is accessed only under its mutex; a new monitor is registered and replayed (oldest first: index..end when wrapped, then 0..index) inside one critical section that Write also takes. The monitor's own 512-entry channel dropping is not covered.",
-		Run: runC29,
+		Run:     runC29,
 		Mutants: []Mutant{
 			{Name: "gated-write-under-rlock", File: "cmd/serf/command/agent/gated_writer.go", Func: "func (w *GatedWriter) Write(", Old: "\tw.lock.Lock()\n\tdefer w.lock.Unlock()\n", New: "\tw.lock.RLock()\n\tdefer w.lock.RUnlock()\n", Expect: "R1"},
 			{Name: "flush-drains-after-unlock", File: "cmd/serf/command/agent/gated_writer.go", Func: "func (w *GatedWriter) Flush(", Old: "\tw.lock.Lock()\n\tdefer w.lock.Unlock()\n\n\tw.flush = true\n", New: "\tw.lock.Lock()\n\tw.flush = true\n\tw.lock.Unlock()\n", Expect: "R1"},
@@ -27,9 +27,9 @@ func init() {
 		},
 	})
 	register(&Rule{
-		ID: "C30",
+		ID:      "C30",
 		Explain: "Decides the tag-edit and persistence clauses structurally: the RPC tags handler builds a fresh map (no alias of the live tags), copies an old tag only behind 'key not among the deleted keys' (the flag is only ever raised by key equality over the whole delete list), and copies the set keys after the old-tag loop (set wins), then hands that map to SetTags; the agent persists what is in effect: the value written to the tags file is read back from the Serf configuration after Serf's SetTags ran (so after a rejected edit the file still equals the effective tags), or the write is behind SetTags' nil result; loader and writer agree on a JSON object of strings.",
-		Run: runC30,
+		Run:     runC30,
 		Mutants: []Mutant{
 			{Name: "persist-before-validation", File: "cmd/serf/command/agent/agent.go", Func: "func (a *Agent) SetTags(", Old: "a.writeTagsFile(a.conf.Tags)", New: "a.writeTagsFile(tags)", Expect: "R2"},
 			{Name: "no-persist-when-serf-errs", File: "cmd/serf/command/agent/agent.go", Func: "func (a *Agent) SetTags(", Old: "\terr := a.serf.SetTags(tags)\n", New: "\terr := a.serf.SetTags(tags)\n\tif err != nil {\n\t\treturn err\n\t}\n", Expect: "R2|SetTags:persists-on-every-exit"},
@@ -40,9 +40,9 @@ func init() {
 		},
 	})
 	register(&Rule{
-		ID: "C31",
+		ID:      "C31",
 		Explain: "Decides configuration layering structurally: MergeConfig assigns every field of Config (and of the nested MDNS block) except the raw duration strings whose parsed twins are merged; each merge statement reads b.F and writes result.F of the same field and belongs to an associative class — later-wins-if-set (guard a predicate of b.F alone), OR for switches, always-later (the compression switch only), concatenation a-then-b into a fresh slice, right-biased union into a fresh map — hence the merge is associative; no store, map update, element store or library copy writes through anything reachable from the inputs (the shallow copy shares a's maps and slices); the file reader folds MergeConfig(acc, next) with the accumulator first, directories in sorted order.",
-		Run: runC31,
+		Run:     runC31,
 		Mutants: []Mutant{
 			{Name: "field-dropped", File: "cmd/serf/command/agent/config.go", Func: "func MergeConfig(", Old: "\tif b.SnapshotPath != \"\" {\n\t\tresult.SnapshotPath = b.SnapshotPath\n\t}\n", New: "", Expect: "R1"},
 			{Name: "cross-wired", File: "cmd/serf/command/agent/config.go", Func: "func MergeConfig(", Old: "\t\tresult.StatsdAddr = b.StatsdAddr\n", New: "\t\tresult.StatsdAddr = b.StatsiteAddr\n", Expect: "R2"},
